@@ -71,7 +71,8 @@ static enum DeviceStatusCode cam_set(struct Camera*, struct CameraProperties*) {
 static enum DeviceStatusCode cam_get(const struct Camera*, struct CameraProperties* p) { driver_sees(CAMR, "camera", C_GET); memset(p, 0, sizeof *p); auto a = ans_status(); return a; }
 static enum DeviceStatusCode cam_meta(const struct Camera*, struct CameraPropertyMetadata* m) { driver_sees(CAMR, "camera", C_META); memset(m, 0, sizeof *m); return ans_status(); }
 static enum DeviceStatusCode cam_shape(const struct Camera*, struct ImageShape* s) { driver_sees(CAMR, "camera", C_SHAPE); memset(s, 0, sizeof *s); return ans_status(); }
-static enum DeviceStatusCode cam_start(struct Camera*) { driver_sees(CAMR, "camera", C_START); auto a = ans_status(); CAMR.last_answer = a; if (a == Device_Ok) CAMR.started = true; return a; }
+// a start that fails leaves this driver stopped (a legal driver; it makes "is the driver running" a function of its own answers)
+static enum DeviceStatusCode cam_start(struct Camera*) { driver_sees(CAMR, "camera", C_START); auto a = ans_status(); CAMR.last_answer = a; CAMR.started = (a == Device_Ok); return a; }
 static enum DeviceStatusCode cam_stop(struct Camera*) { driver_sees(CAMR, "camera", C_STOP); auto a = ans_status(); CAMR.last_answer = a; CAMR.started = false; return a; }
 static enum DeviceStatusCode cam_trig(struct Camera*) { driver_sees(CAMR, "camera", C_TRIG); return ans_status(); }
 static enum DeviceStatusCode cam_frame(struct Camera*, void*, size_t* n, struct ImageInfo*) { driver_sees(CAMR, "camera", C_FRAME); auto a = ans_status(); CAMR.last_answer = a; *n = 0; return a; }
@@ -254,6 +255,9 @@ static void do_op(World& w, int op)
         if (!g_violation.empty()) return;
         enum DeviceState got = camera_get_state(c);
         if (got != w.model) { char m[200]; snprintf(m, sizeof m, "after camera %s the HAL reports %s; the driver's last response implies %s", op_name(op), st_name(got), st_name(w.model)); viol("hal-state-does-not-follow-driver", m); }
+        // the reported state and the driver's own run state (a function of its answers: started by a successful start, stopped by
+        // stop or a failed start) agree: a HAL that reports "not running" for a camera it never told to stop has lost track of it
+        else if ((got == DeviceState_Running) != CAMR.started) { char m[200]; snprintf(m, sizeof m, "after camera %s the HAL reports %s but the driver %s", op_name(op), st_name(got), CAMR.started ? "was started and never told to stop" : "is not running"); viol("hal-state-disagrees-with-driver-run-state", m); }
     } else {
         struct Storage* s = w.sto;
         switch (op) {
